@@ -794,39 +794,87 @@ def rule_cached_witness_consistent(ctx):
 
 
 def _model_list_polarity(prog, b, lst):
-    """{'true', 'false'}: which model values the elements kept in a list filtered from a model have; None when not recognised"""
+    """{'true', 'false'}: which model values the elements kept in a list filtered from a model have; None when not recognised.
+    Forms: `== / != Some(k)`, `match v { Some(true) => keep, .. }`, `filter(|(_, v)| v.unwrap_or(k))`, in `filter` / `filter_map`
+    closures over the pairs of `Assignment::iter`; a closure of the chain that does not look at the value is neutral"""
     from ..prov import prov, subterms
     from .grounded import inherited_conditions, _cond_trees
+
+    def value_of_elem(t):
+        # `.1` (the value) of an element of the iteration, possibly its payload `.1.0`
+        while isinstance(t, tuple) and t[0] == "field":
+            if t[2] == "1" and isinstance(t[1], tuple) and t[1][0] == "elem":
+                return True
+            t = t[1]
+        return False
 
     out = set()
     for e in prov(prog, b, lst):
         clos = [t for t in subterms(e) if isinstance(t, tuple) and t[0] == "call" and re.search(r"Iterator::(filter_map|filter)$", t[1]) and t[3]]
-        if len(clos) != 1:
+        if not clos:
             return None
-        clo = prog.by_target[b.target].get(clos[0][3][0])
-        if clo is None:
-            return None
-        keeps = []
-        for st in clo.sites():
-            nd = st.node
-            if clos[0][1].endswith("filter_map") and st.si is not None and nd["k"] == "assign" and nd["rv"]["k"] == "aggregate" and nd["rv"]["agg"].get("variant") == "Some" and "Option" in str(nd["rv"]["agg"].get("path")):
-                # the closure's own Some(..) results, not payload constants of comparisons
-                if any(o.kind == "agg" and (o.site.bb, o.site.si) == (st.bb, st.si) for o in origins(clo, {"l": 0, "p": []}, transparent=())):
-                    keeps.append(st)
-        if not keeps:
-            return None
-        for st in keeps:
-            found = None
-            for c, t in _cond_trees(prog, inherited_conditions(prog, clo, st.bb)):
-                if c[0] == "call" and re.search(r"PartialEq::(eq|ne)$", c[1]) and len(c[2]) == 2:
-                    ks = [a[2][0][1] for a in c[2] if a[0] == "agg" and a[1] == "Some" and len(a[2]) == 1 and a[2][0][0] == "const" and isinstance(a[2][0][1], bool)]
-                    vals = [a for a in c[2] if not (a[0] == "agg" and a[1] == "Some")]
-                    if len(ks) == 1 and len(vals) == 1 and any(isinstance(x, tuple) and x[0] == "elem" for x in subterms(vals[0])):
-                        equal = t if c[1].endswith("::eq") else (not t)
-                        found = ("true" if ks[0] else "false") if equal else ("false" if ks[0] else "true")
-            if found is None:
+        decided = False
+        for cl in clos:
+            clo = prog.by_target[b.target].get(cl[3][0]) or prog.lib(cl[3][0])
+            if clo is None:
                 return None
-            out.add(found)
+            is_fm = cl[1].endswith("filter_map")
+            keeps = []
+            if is_fm:
+                for st in clo.sites():
+                    nd = st.node
+                    if st.si is not None and nd["k"] == "assign" and nd["rv"]["k"] == "aggregate" and nd["rv"]["agg"].get("variant") == "Some" and "Option" in str(nd["rv"]["agg"].get("path")):
+                        if any(o.kind == "agg" and (o.site.bb, o.site.si) == (st.bb, st.si) for o in origins(clo, {"l": 0, "p": []}, transparent=())):
+                            keeps.append(st.bb)
+                # `Some(true) => lookup(..)` returns the callee's Option as it is: the call is the keep site
+                for o in origins(clo, {"l": 0, "p": []}, transparent=()):
+                    if o.kind == "call" and o.site is not None and o.site.node["dst"]["l"] == 0:
+                        keeps.append(o.site.bb)
+            else:
+                # filter: the returned bool itself
+                for r0 in prov(prog, clo, {"l": 0, "p": []}):
+                    neg = False
+                    while r0[0] == "op" and r0[1] == "Not":
+                        neg = not neg
+                        r0 = r0[2][0]
+                    if r0[0] == "call" and re.search(r"Option::unwrap_or(_default)?$", r0[1]) and r0[2] and value_of_elem(r0[2][0]):
+                        out.add("false" if neg else "true")
+                        decided = True
+                    elif r0[0] == "call" and re.search(r"PartialEq::(eq|ne)$", r0[1]) and len(r0[2]) == 2:
+                        ks = [a[2][0][1] for a in r0[2] if a[0] == "agg" and a[1] == "Some" and len(a[2]) == 1 and a[2][0][0] == "const" and isinstance(a[2][0][1], bool)]
+                        vals = [a for a in r0[2] if not (a[0] == "agg" and a[1] == "Some")]
+                        if len(ks) == 1 and len(vals) == 1 and value_of_elem(vals[0]):
+                            equal = r0[1].endswith("::eq") != neg
+                            out.add(("true" if ks[0] else "false") if equal else ("false" if ks[0] else "true"))
+                            decided = True
+                    elif value_of_elem(r0) and r0[0] == "field" and r0[2] == "0":
+                        out.add("false" if neg else "true")
+                        decided = True
+                    elif any(value_of_elem(t) for t in subterms(r0)):
+                        return None
+                continue
+            looks = False
+            for bb in keeps:
+                found = None
+                for c, t in _cond_trees(prog, inherited_conditions(prog, clo, bb)):
+                    if c[0] == "call" and re.search(r"PartialEq::(eq|ne)$", c[1]) and len(c[2]) == 2:
+                        ks = [a[2][0][1] for a in c[2] if a[0] == "agg" and a[1] == "Some" and len(a[2]) == 1 and a[2][0][0] == "const" and isinstance(a[2][0][1], bool)]
+                        vals = [a for a in c[2] if not (a[0] == "agg" and a[1] == "Some")]
+                        if len(ks) == 1 and len(vals) == 1 and any(isinstance(x, tuple) and x[0] == "elem" for x in subterms(vals[0])):
+                            equal = t if c[1].endswith("::eq") else (not t)
+                            found = ("true" if ks[0] else "false") if equal else ("false" if ks[0] else "true")
+                    elif c[0] == "field" and c[2] == "0" and value_of_elem(c):
+                        # the payload of `Some(b)` matched as a pattern
+                        found = "true" if t else "false"
+                    elif any(value_of_elem(x) for x in subterms(c)):
+                        looks = True
+                if found is not None:
+                    out.add(found)
+                    decided = True
+                elif looks:
+                    return None
+        if not decided:
+            return None
     return out or None
 
 
@@ -1058,3 +1106,77 @@ def rule_dynamic_query_polarity(ctx):
                                 wanted = (arm == "model") == (kind == "credulous")
                                 r.check(k["bool"] is wanted, "%s|status-with-%s" % (qb.id, arm.replace(" ", "-")), "status:%s" % k["bool"], "%s query: %s gives %s" % (kind, arm, wanted), "the %s query answers %s when the SAT call has %s" % (kind, str(k["bool"]).upper(), "a model" if arm == "model" else "no model"), st.loc())
     r.floor(n, 6, "SAT calls and verdict arms of the dynamic solvers' queries")
+
+
+def rule_decoders_keep_true_variables(ctx):
+    """C10 / C01 / C04: from a model to a set of arguments"""
+    prog = ctx.prog
+    from ..prov import prov, show, subterms
+    from .splits import linear
+    from .grounded import inherited_conditions, _cond_trees, _is_call
+
+    r = ctx.rule(
+        "decoders-keep-true-variables",
+        "every `assignment_to_extension` (the four static encoders, the two dynamic encoders, the dynamic preferred solver's adaptor) keeps "
+        "exactly the variables the model sets to true (`Some(true)` pattern, `== Some(true)`, `unwrap_or(false)`), and a decoder that tests an "
+        "argument id against the framework's size tests `id < n`",
+    )
+    n = 0
+    for b in sorted(prog.lib_bodies(), key=lambda x: x.id):
+        if b.kind == "closure" or not b.path.endswith("assignment_to_extension") or "::tests::" in b.path:
+            continue
+        if not any(True for _ in b.calls()):
+            continue
+        trees = list(prov(prog, b, {"l": 0, "p": []}))
+        if not any(_is_call(t, r"Assignment::iter$") for e in trees for t in subterms(e)):
+            # delegation / unimplemented!()
+            dl = [s for s in b.calls() if callee_decl(callee_of(s)).endswith("assignment_to_extension")]
+            if dl:
+                n += 1
+                r.ok(b.id, "delegates to another decoder", b.loc())
+            continue
+        n += 1
+        pol = _model_list_polarity(prog, b, {"l": 0, "p": []})
+        if pol is None:
+            r.ok(b.id, "NOT decided: how the model is filtered is not of a recognised form", b.loc())
+        else:
+            r.check(pol == {"true"}, b.id, "decoder-polarity:%s" % sorted(pol), "keeps the variables set to true", "the decoder keeps the variables that are %s in the model: the set handed back is not the one the model describes" % "/".join(sorted(pol)), b.loc())
+        # the size test
+        seen_conds = set()
+        for y in prog.with_closures(b):
+            sites = [s for s in y.calls() if callee_decl(callee_of(s)).endswith("get_argument_by_id")]
+            for st in y.sites():
+                nd = st.node
+                if st.si is not None and nd["k"] == "assign" and nd["rv"]["k"] == "aggregate" and nd["rv"]["agg"].get("variant") == "Some":
+                    sites.append(st)
+            for s in sites:
+                for c, t in _cond_trees(prog, inherited_conditions(prog, y, s.bb)):
+                    if (repr(c), t) in seen_conds:
+                        continue
+                    seen_conds.add((repr(c), t))
+                    if c[0] == "op" and c[1] in ("Lt", "Le", "Gt", "Ge") and len(c[2]) == 2:
+                        def atom(x):
+                            if _is_call(x, r"n_arguments$|ArgumentSet::len$"):
+                                return "n"
+                            if x[0] in ("elem", "field", "call") and not _is_call(x, r"n_arguments$|ArgumentSet::len$") and any(isinstance(z, tuple) and z[0] == "elem" for z in subterms(x)) and not (x[0] == "field" and x[1][0] == "op"):
+                                return "id"
+                            return None
+                        a_, b_ = linear(c[2][0], atom), linear(c[2][1], atom)
+                        if a_ is None or b_ is None:
+                            continue
+                        d = dict(a_)
+                        for k, v in b_.items():
+                            d[k] = d.get(k, 0) - v
+                        d = {k: v for k, v in d.items() if v != 0}
+                        k0 = d.pop(1, 0)
+                        op = c[1] if t else {"Lt": "Ge", "Le": "Gt", "Gt": "Le", "Ge": "Lt"}[c[1]]
+                        if d == {"id": -1, "n": 1}:
+                            op = {"Lt": "Gt", "Le": "Ge", "Gt": "Lt", "Ge": "Le"}[op]
+                            k0 = -k0
+                        elif d != {"id": 1, "n": -1}:
+                            continue
+                        # id - n + k0 op 0
+                        ok = (op == "Lt" and k0 == 0) or (op == "Le" and k0 == 1)
+                        n += 1
+                        r.check(ok, b.id + "|bound", "decoder-bound:%s%+d" % (op, k0), "an id is decoded when id < n", "the decoder keeps an argument id when `id - n %+d %s 0`, not when id < n: the argument with the last id is dropped (or an id beyond the framework is looked up)" % (k0, {"Lt": "<", "Le": "<=", "Gt": ">", "Ge": ">="}[op]), s.loc())
+    r.floor(n, 6, "decoders from models to argument sets")
